@@ -66,7 +66,7 @@ struct Driver {
             vclock::advance_ms(c.i("skew", 0));
             bool con = h1 && a->connect_peer(b->id(), "127.0.0.1", b->transport_port());
             for (int i = 0; i < 2000 && con && !Acc::sessions(*b).is_connected(a->id()); ++i) usleep(1000);
-            ev::Ev e("reset"); e.i("ia", a->config().key_rotation_interval.count() * 1000).i("ib", b->config().key_rotation_interval.count() * 1000)
+            static long bi = 0; ev::Ev e("reset"); e.i("bi", ++bi).i("ia", a->config().key_rotation_interval.count() * 1000).i("ib", b->config().key_rotation_interval.count() * 1000)
                 .i("skew", c.i("skew", 0)).b("connected", con);
             fin(e);
         } else if (c.op == "tick") {
